@@ -189,6 +189,12 @@ def file_fault_plans(base, image, stored, tier, rng):
     if base["blocked"]:
         for b0 in range(0, len(image), 1014):
             out.append([{"kind": "substitute", "off": b0 + 1012, "val": 0x00, "cls": "block_trailer_byte"}])
+    # the first 24 bytes of the file (length, MTI, bitmap of record 1) are also inspected by the tools'
+    # file diagnostics before / outside their error handling: every byte x curated values
+    for off in range(0, min(24, len(image))):
+        for v in faults.curated_values(base["encoding"]):
+            if v != image[off]:
+                out.append([{"kind": "substitute", "off": off, "val": v, "cls": "file_header_region"}])
     return out
 
 
@@ -220,6 +226,8 @@ def run_file_base(seed_i, tier, part):
         img = apply_faults(image, fl)
         idx += 1
         reader = readers[idx % len(readers)]
+        if tools and fl and fl[0].get("cls") == "file_header_region":
+            reader = ("mci_ipm_to_csv", "mideu", "mci_ipm_to_csv", "IpmReader")[idx % 4]
         scn = dict(base, file_faults=fl, reader=reader)
         _, out = corrupt.run_file(scn, img)
         _count(part, out, faults.fault_class(fl), img != image, img, reader)
